@@ -200,6 +200,7 @@
 #![allow(clippy::needless_borrowed_reference)]
 #![allow(clippy::vec_init_then_push)]
 #![cfg_attr(docsrs, feature(doc_cfg))]
+#![cfg_attr(kani, feature(allocator_api))]
 #![deny(missing_docs)]
 #![doc(html_logo_url = "https://github.com/mitsuhiko/minijinja/raw/main/artwork/logo-square.png")]
 
